@@ -23,7 +23,7 @@ LEVEL_TEXT = ("Base scenarios with depth-dependent sheared, time-dependent curre
 LEVEL_NOTE = "Equality is on f8 output, so 'bit for bit' is exact. Trusts the row tag column (an int instance variable) to follow the particle (C05)."
 RULE = ("case = base scenario + variant list. Non-trivial: at least one particle placed behind a removed/killed one in the state arrays survives for >= 3 further records "
         "(the cross-talk pattern); distinct by base parameters.")
-MANDATORY = ["removed_rows_followed_among_more_than_20_particles", "rows_with_mult_counted", "time_shift_of_a_century_or_more_pairs", "restart_in_dense_layout_pairs", "discrete_release_with_frequency_entry", "repeat_with_stateful_plugin_pairs", "interleaved_release_times_pairs", "shallow_only_pairs", "killed_newest_pairs", "pid_to_row_mapping_checked", "vertical_advection", "deactivated_rows_alone_pairs", "lonlat_release_pairs", "reversed_time", "subgrid_off_diagonal", "float_day_time_axis", "repeat_pairs", "subset_pairs", "added_rows_pairs", "permuted_pairs", "killed_others_pairs", "time_shift_pairs", "deactivated_others_pairs", "empty_state_before_late_release_pairs", "death_then_output",
+MANDATORY = ["lonlat_rows_sharing_a_longitude_or_a_latitude", "removed_rows_followed_among_more_than_20_particles", "rows_with_mult_counted", "time_shift_of_a_century_or_more_pairs", "restart_in_dense_layout_pairs", "discrete_release_with_frequency_entry", "repeat_with_stateful_plugin_pairs", "interleaved_release_times_pairs", "shallow_only_pairs", "killed_newest_pairs", "pid_to_row_mapping_checked", "vertical_advection", "deactivated_rows_alone_pairs", "lonlat_release_pairs", "reversed_time", "subgrid_off_diagonal", "float_day_time_axis", "repeat_pairs", "subset_pairs", "added_rows_pairs", "permuted_pairs", "killed_others_pairs", "time_shift_pairs", "deactivated_others_pairs", "empty_state_before_late_release_pairs", "death_then_output",
              "trajectory_points_compared", "dense", "sparse", "survivor_behind_removed"]
 ASSUMPTIONS = ["diffusion off (as the property states)"]
 TIMEOUT = {"quick": 900, "thorough": 3400}
@@ -51,6 +51,10 @@ def run_lonlat(case: dict[str, Any], wd: Path) -> dict[str, Any]:
     Y = rng.uniform(3.0, jmax - 4.0, size=n)
     lon, lat = W.polar_lonlat(X, Y, pol)
     rows = [dict(rid=k + 1, lon=float(lon[k]), lat=float(lat[k])) for k in range(n)]
+    # stations on one meridian / one parallel: row 2 shares its longitude with row 1, the last row its latitude with the last but one (half a cell apart)
+    dl_ = 0.5 * pol["dx"] / 111.2e3
+    rows[1] = dict(rid=2, lon=rows[0]["lon"], lat=rows[0]["lat"] + dl_)
+    rows[-1] = dict(rid=n, lon=rows[-2]["lon"] + dl_ / max(0.2, float(np.cos(np.radians(rows[-2]["lat"])))), lat=rows[-2]["lat"])
     V: list = []
     sit: dict[str, int] = {}
     cnt: dict[str, int] = {}
@@ -68,6 +72,7 @@ def run_lonlat(case: dict[str, Any], wd: Path) -> dict[str, Any]:
         return {int(rid): [(float(r.vars["X"][k]), float(r.vars["Y"][k])) for r in recs for k in np.nonzero(np.asarray(r.vars["rid"]) == rid)[0]] for rid in recs[0].vars["rid"]}
 
     base = run("base", rows)
+    sit["lonlat_rows_sharing_a_longitude_or_a_latitude"] = 1
     if base:
         for tag, rws in (("one row alone", rows[:1]), ("half of the rows", rows[::2]), ("rows reversed", rows[::-1]), ("last rows only", rows[-2:])):
             o = run(tag.replace(" ", "_"), rws)
